@@ -29,13 +29,40 @@ def run_histories(chk, binary, scripts, jobs=16, timeout=300):
         chk.corr_broken('harness-run', 'harness process failed:\n' + e[-2000:])
     for recs in traces.values():
         recs.sort(key=lambda r: r['seq'])
+        for r in recs:     # Go encodes nil slices as null
+            r['cache'] = r.get('cache') or []
+            if r.get('bln'):
+                r['bln']['balloons'] = r['bln'].get('balloons') or []
+            if r.get('ta'):
+                r['ta']['grants'] = r['ta'].get('grants') or []
     return traces
+
+
+def maybe_replay(chk, replay, scripts, zoo, paths, copies=12):
+    """--replay FILE: instead of the generated histories run the recorded one, `copies` times
+    (the implementation breaks placement ties by Go map order, so one run is not enough)"""
+    if not replay:
+        return scripts
+    d = json.load(open(replay))
+    sc = d.get('replay') or {}
+    if 'events' not in sc:
+        log('replay file %s holds no event history (kind: %s)' % (replay, ', '.join(sc.keys()) if isinstance(sc, dict) else type(sc).__name__))
+        return []
+    mname = sc.get('machine_name') or os.path.basename(sc['machine'])[:-len('.json')]
+    m = next(z for z in zoo if z['name'] == mname)
+    out = []
+    for i in range(copies):
+        s = dict(sc)
+        s.update(name='rp%02d' % i, machine=paths[mname], machine_name=mname, _machine=m)
+        out.append(s)
+    return out
 
 
 def replay_of(script, upto):
     """replay object: the script cut after event `upto`"""
     s = dict(script)
     s['events'] = script['events'][:upto + 1]
+    s['machine_name'] = os.path.basename(script['machine'])[:-len('.json')]
     return s
 
 
@@ -44,13 +71,13 @@ def nontrivial_history(recs):
     changed another container's resources"""
     live2 = excl = rel = other = False
     for r in recs:
-        if sum(1 for c in r['cache'] if c['state'] in ('created', 'running')) >= 2:
+        if sum(1 for c in (r.get('cache') or []) if c['state'] in ('created', 'running')) >= 2:
             live2 = True
         ta = r.get('ta')
         if ta and any(g['exclusive'] for g in (ta['grants'] or [])):
             excl = True
         b = r.get('bln')
-        if b and any(x['cpus'] and x['members'] for x in b['balloons']):
+        if b and any(x['cpus'] and x['members'] for x in (b.get('balloons') or [])):
             excl = True
         if r['op'] == 'StopContainer':
             rel = True
